@@ -287,6 +287,12 @@ def run(chk):
                     return z3.Not(defined)
                 return z3.Implies(defined, same(terms(p.value), want))
             chk.prove_paths(f"mixed:{lt}{op}{rt}:==python-float-op-on-float(integer-value)", paths, post, func=f"{NUM}:float")
+    # compile-time constant operands: the value the operator receives is the value written
+    from .C17 import constant_payload_obligations, IMIN, IMAX, NMAX
+    cv = z3.Int("v")
+    e.func_info("guppylang_internals.compiler.expr_compiler", "python_value_to_hugr")
+    e.func_info("guppylang_internals.std._internal.compiler.arithmetic", "UnsignedIntVal")
+    constant_payload_obligations(chk, e, cv, z3.And(cv >= 0, cv <= NMAX), z3.And(cv >= IMIN, cv <= IMAX), tag="constant-operands:")
     # the coercion used above (GuppyWorld.coerce = ONE direct call of the target's conversion
     # method) is the contract of the real try_coerce_to, discharged here from its code
     from .C16 import try_coerce_obligations
